@@ -60,9 +60,26 @@ func clause(real buildOutcome, orc typesOutcome) string {
 //     constant that go/types accepts, and the program has a constant subexpression whose exact
 //     value is not a binary fraction (Scriggo computes quotients in binary floating point of 512
 //     bits, go/types with exact rationals: 3000.0 * (76 / 1000.0) is 228 only exactly).
-func classify(cl string, r buildOutcome, o typesOutcome) string {
+//   - short-redeclaration-of-constant: Build accepts a multi-name := whose already declared name is
+//     a constant of the same scope (`const c = 1; c, x := 2, 3`), go/types says "cannot assign to c".
+func classify(cl string, r buildOutcome, o typesOutcome, min *Prog) string {
 	if cl == "rejects-what-go/types-accepts" && o.NonDyadic && strings.Contains(r.Msg, "truncated to integer") {
 		return "untyped-float-constant-arithmetic-not-exact"
+	}
+	if cl == "accepts-what-go/types-rejects" && min != nil {
+		consts := map[int]bool{}
+		for _, s := range min.Stmts {
+			switch s.K {
+			case "const":
+				consts[s.ID] = true
+			case "short2":
+				for _, id := range []int{s.ID, s.ID2} {
+					if consts[id] && strings.Contains(o.Msg, "cannot assign to "+name(id)) {
+						return "short-redeclaration-of-constant"
+					}
+				}
+			}
+		}
 	}
 	return ""
 }
@@ -321,7 +338,7 @@ func run(c *hx.Ctx) error {
 					b.Finding = f.ID
 				}
 			}
-			if fid := classify(cl, r, o); fid != "" {
+			if fid := classify(cl, r, o, min); fid != "" {
 				b.Finding = c.Known(fid)
 			}
 			res.AddBreak(b)
@@ -381,7 +398,7 @@ func replay(c *hx.Ctx) error {
 				b.Finding = f.ID
 			}
 		}
-		if fid := classify(cl, r, o); fid != "" {
+		if fid := classify(cl, r, o, nil); fid != "" {
 			b.Finding = c.Known(fid)
 		}
 		c.Res.AddBreak(b)
